@@ -400,16 +400,16 @@ Fixpoint iter_list (step : env -> outcome) (els : list (list (str * val))) (e : 
       end
   end.
 
-Fixpoint iter_while (fuel : nat) (cond : env -> option bool) (step : env -> outcome) (e : env) : outcome :=
+Fixpoint iter_while (fuel : nat) (c : expr) (step : env -> outcome) (e : env) : outcome :=
   match fuel with
   | O => OOutOfFuel
   | S n =>
-      match cond e with
+      match eval_test c e with
       | None => OStuck
       | Some false => ONormal e
       | Some true =>
           match step e with
-          | ONormal e' | OContinue e' => iter_while n cond step e'
+          | ONormal e' | OContinue e' => iter_while n c step e'
           | OBreak e' => ONormal e'
           | o => o
           end
@@ -444,7 +444,7 @@ Fixpoint exec (fuel : nat) (s : stmt) (e : env) : outcome :=
           | o => o
           end
       end
-  | SWhile c body => iter_while fuel (eval_test c) (exec fuel body) e
+  | SWhile c body => iter_while fuel c (exec fuel body) e
   | SBreak => OBreak e
   | SContinue => OContinue e
   | SReturn a => match eval a e with Some v => OReturn v | None => OStuck end
@@ -557,7 +557,7 @@ Ltac mp_step :=
                   end
               end)
   | |- context [exec ?f (SWhile ?c ?b) ?e] =>
-      change (exec f (SWhile c b) e) with (iter_while f (eval_test c) (exec f b) e)
+      change (exec f (SWhile c b) e) with (iter_while f c (exec f b) e)
   end; mp_eval; cbn [negb].
 
 Ltac mp_steps := repeat mp_step.
@@ -672,16 +672,31 @@ Lemma iter_list_cons step b rest e :
   end.
 Proof. reflexivity. Qed.
 
-Lemma iter_while_S n cond step e :
-  iter_while (S n) cond step e =
-  match cond e with
+Lemma iter_while_S n c step e :
+  iter_while (S n) c step e =
+  match eval_test c e with
   | None => OStuck
   | Some false => ONormal e
   | Some true =>
       match step e with
-      | ONormal e' | OContinue e' => iter_while n cond step e'
+      | ONormal e' | OContinue e' => iter_while n c step e'
       | OBreak e' => ONormal e'
       | o => o
       end
   end.
 Proof. reflexivity. Qed.
+
+Lemma len_z_map {A B} (f : A -> B) l : len_z (map f l) = len_z l.
+Proof. unfold len_z. rewrite map_length. reflexivity. Qed.
+
+Lemma len_z_app {A} (l1 l2 : list A) : len_z (l1 ++ l2) = len_z l1 + len_z l2.
+Proof. unfold len_z. rewrite app_length. lia. Qed.
+
+Lemma idx_map_app_mid {A B} (f : A -> B) l1 x l2 :
+  idx (map f (l1 ++ x :: l2)) (Z.of_nat (length l1)) = Some (f x).
+Proof.
+  rewrite map_app. cbn [map]. rewrite <- (map_length f l1). apply idx_app_mid.
+Qed.
+
+Lemma map_const_repeat {A B} (b : B) (l : list A) : map (fun _ => b) l = repeat b (length l).
+Proof. induction l as [|x l IH]; cbn [map length repeat]; [reflexivity|]. rewrite IH. reflexivity. Qed.
